@@ -43,11 +43,13 @@ Lemma run_body_no_fuel rq m S0 stmts :
   forall g menv, stack g = S0 -> no_fuel (snd (run_body rq m stmts g menv)).
 Proof.
   intros H. induction stmts as [|s r IH]; intros g menv Hs; [exact I|].
-  destruct s as [x v|f m2| |]; cbn [run_body].
+  destruct s as [x v|f m2| | |f m2 x0]; cbn [run_body].
   - apply IH. exact Hs.
   - destruct (H g m2 Hs) as [N S]. destruct (rq g m2) as [g' [menv2|e|]]; cbn [fst snd] in *; [apply IH; exact S|exact I|destruct N].
   - exact I.
   - apply IH. exact Hs.
+  - destruct (H g m2 Hs) as [N S]. destruct (rq g m2) as [g' [menv2|e|]]; cbn [fst snd] in *; [apply IH; exact S| |destruct N].
+    destruct (e =? 7); [exact I|apply IH; exact S].
 Qed.
 
 Theorem req_enough_fuel p : forall fuel g m, (free p (stack g) < fuel)%nat -> no_fuel (snd (req fuel p g m)).
